@@ -20,6 +20,7 @@ func reader_triples2_blankNodePropertyList(r *Decoder, ectx evaluationContext, r
 	r.buf.BacktrackRunes(r0)
 
 	r.pushState(ectx, reader_scan_triples_End)
+	r.pushState(ectx, reader_scan_PredicateObjectList_Continue)
 	r.pushState(ectx, reader_scan_PredicateObjectList)
 	r.pushState(ectx, reader_scan_blankNodePropertyList_End)
 	r.pushState(ectx, reader_scan_PredicateObjectList_Continue)
